@@ -476,7 +476,31 @@ func c17Sort(c *fw.Ctx, r *rng.R, vals []any, kind int) {
 			n := l.Count()
 			v := c17Values(r, kind, 1)[0]
 			var desc string
-			switch r.Intn(6) {
+			switch r.Intn(7) {
+			case 6:
+				// several values in one Add: copies of the current last (largest) element around one fresh value, and a batch in
+				// descending order - each of them fits behind the sorted part, the batch itself is not in order
+				cur := top(l).([]any)
+				batch := c17Values(r, kind, r.Range(2, 4))
+				sortAny(batch, kind)
+				for a, b := 0, len(batch)-1; a < b; a, b = a+1, b-1 {
+					batch[a], batch[b] = batch[b], batch[a]
+				}
+				if n > 0 && r.Bool() {
+					last := cur[n-1]
+					var keep []any
+					for _, x := range batch {
+						if !lessAny(x, last, kind) {
+							keep = append(keep, x)
+						}
+					}
+					batch = append(keep, last)
+					if len(batch) >= 2 && r.Bool() {
+						batch[0], batch[len(batch)-1] = batch[len(batch)-1], batch[0]
+					}
+				}
+				l.Add(batch...)
+				desc = fmt.Sprintf("Add(%s...)", showVals17(batch))
 			case 0:
 				i := r.Intn(n + 1)
 				if n > 0 && r.Chance(2, 3) {
